@@ -11,6 +11,7 @@
                  DelaunayTriangulation's Deserialize goes through the Tds one.
 Not decided: equality after the round trip, later insertions, key-gap handling (slotmap serde)."""
 import flow
+from collections import defaultdict
 import gate
 import tables
 
@@ -114,6 +115,7 @@ def run(ctx):
         _eqorder(ctx, cfg, prog, mod)
         _seqarity(ctx, cfg, prog, mod)
         _readfinite(ctx, cfg, prog, mod)
+        _refuse(ctx, cfg, prog)
         _gates(ctx, cfg, prog, mod)
     return ctx.finish(EXPLANATION)
 
@@ -122,6 +124,49 @@ POINT_SER = '<geometry::point::Point as geometry::point::_::_serde::Serialize>::
 NONFINITE_TRUE = ('is_nan', 'is_infinite')
 FINITE_FALSE = ('is_finite_generic', 'is_finite')
 FPCAT_NONFINITE = {0, 1}       # std::num::FpCategory::{Nan, Infinite} (declaration order)
+
+
+# Refusals a reader decides *itself* (a direct call of `de::Error::custom` with its own message), per visitor: (count, what
+# they refuse).  Errors of validators and rebuild helpers forwarded with `.map_err(de::Error::custom)?` are not in here (the
+# function item is not a call), nor are the serde-generated missing / duplicate-field and length errors.
+REFUSE_TABLE = {
+    'Tds': (2, 'a cell entry that names an unknown vertex UUID; a `cell_vertices` key that names no cell'),
+    'Cell': (1, 'a nil / malformed cell UUID'),
+    'Vertex': (2, 'a nil / malformed vertex UUID; a point that fails validation'),
+    'Point': (1, 'a coordinate token that is neither a number nor one of the non-finite spellings'),
+}
+
+
+def _refuse(ctx, cfg, prog):
+    """REFUSE: "deserialising what was serialised yields the same triangulation" is broken by a reader that refuses a
+    state the library can produce (a triangulation holding vertices and no cell yet).  Which states are legitimate is not
+    decidable here; what is: every refusal the reader decides on its own is in the reviewed table, so a new one is
+    reported for review instead of passing silently."""
+    import re
+    ctx.rule('REFUSE', 'refusals decided by a deserialiser itself do not exceed the reviewed table')
+    counts = defaultdict(list)
+    for q, b in sorted(prog.bodies.items()):
+        if not b.file.startswith('src/') or '::tests::' in q:
+            continue
+        root = b.root or q
+        if 'Deserialize' not in root or ('visit_map' not in root and 'visit_seq' not in root):
+            continue
+        m = re.search(r'::(\w+)<[^<>]*(?:<[^<>]*>[^<>]*)*> as [^>]*Deserialize', root)
+        name = m.group(1) if m else root
+        for bb, t in b.calls():
+            n = t.resolved or t.callee or ''
+            if n.endswith('Error>::custom') or n.endswith('de::Error::custom') or n.rsplit('::', 1)[-1] == 'custom' and 'Error' in n:
+                counts[name].append((t.line, b.file))
+    ctx.floor('deserialisers with a refusal of their own', 3, len(counts), cfg)
+    for name, lst in sorted(counts.items()):
+        ent = REFUSE_TABLE.get(name)
+        site = '%s:%d' % (lst[0][1], lst[0][0])
+        ok = ent is not None and len(lst) <= ent[0]
+        ctx.ob('REFUSE', name, cfg, ok,
+               '%d refusal(s) decided by the %s reader itself <= %d reviewed: %s' % (len(lst), name, ent[0], ent[1]) if ok else
+               '%d refusal(s) decided by the %s reader itself at lines %s, %s: a new condition under which serialised data is '
+               'rejected (a state the library can produce and write must load again)' % (
+                   len(lst), name, [l for l, _ in lst], 'no table entry' if ent is None else 'table reviews %d' % ent[0]), site=site)
 
 
 def _seqarity(ctx, cfg, prog, mod):
